@@ -218,16 +218,26 @@ def check_config(ctx, F, tag):
     ctx.ob("C12.R3.flushed-buffer-cleared", RW + "::flush" + tag, loc(fb.raw["span"]), ok, "must-pass-through", "buf.serialize_body(file)? then buf.clear() on every path: %s" % ok)
     pi = [(bi, t) for bi, t in fb.calls() if callee_name(t).endswith("::push_int") and self_path(fb.term_of_operand(t["args"][0])) == ["buf"]]
     ok = len(pi) == 1 and bool(clears) and all(fb.dominates(c, pi[0][0]) for c in clears[:1])
+    pair_form = False
     if ok:
         v, w = core(fb.term_of_operand(pi[0][1]["args"][1])), core(fb.term_of_operand(pi[0][1]["args"][2]))
-        ok = v[0] == "field" and w[0] == "field" and v[1] == w[1] and (v[2], w[2]) == ("0", "1")
+        pair_form = v[0] == "field" and w[0] == "field" and v[1] == w[1] and (v[2], w[2]) == ("0", "1")
+        # ... or the saved pair resolved to what it was saved from: value = buf.int(buf_len, width), width = buf.len() - buf_len
+        direct_form = v[0] == "call" and v[1].endswith("::int") and len(v[2]) == 3 and core(v[2][2]) == w and \
+            m(Bin("Sub", Call(lambda n: n.endswith("::len"), SelfField("buf")), SelfField("buf_len")), w)
+        ok = pair_form or direct_form
     guard_ok = False
     guard_detail = "no guard"
     if ok:
         # the push-back happens whenever the saved width is non-zero: its guard tests the width component, never the value
         fs = facts_at(fb, pi[0][0])
-        on_width = [f for f in fs if f[0] == "cmp" and core(f[2])[0] == "field" and core(f[2])[1] == v[1] and core(f[2])[2] == "1" and f[1] in ("Gt", "Ne") and m(Const(0), f[3])]
-        on_value = [f for f in fs if f[0] == "cmp" and any(x[0] == "field" and x[1] == v[1] and x[2] == "0" for x in list(subterms(f[2])) + list(subterms(f[3])))]
+        if pair_form:
+            on_width = [f for f in fs if f[0] == "cmp" and core(f[2])[0] == "field" and core(f[2])[1] == v[1] and core(f[2])[2] == "1" and f[1] in ("Gt", "Ne") and m(Const(0), f[3])]
+            on_value = [f for f in fs if f[0] == "cmp" and any(x[0] == "field" and x[1] == v[1] and x[2] == "0" for x in list(subterms(f[2])) + list(subterms(f[3])))]
+        else:
+            from guards import fact_nonzero
+            on_width = [1] if fact_nonzero(fs, w) or any(f[0] == "cmp" and f[1] == "Gt" and m(Call(lambda n: n.endswith("::len"), SelfField("buf")), f[2]) and m(SelfField("buf_len"), f[3]) for f in fs) else []
+            on_value = [f for f in fs if f[0] == "cmp" and any(core(x) == v for x in list(subterms(f[2])) + list(subterms(f[3])))]
         guard_ok = bool(on_width) and not on_value
         guard_detail = "guards on the saved pair: width component %d, value component %d" % (len(on_width), len(on_value))
     ctx.ob("C12.R3.overflow-carried-back", RW + "::flush" + tag, loc(fb.raw["span"]), ok and guard_ok, "term-shape+dominance",
